@@ -183,7 +183,17 @@ impl FolderMerge for Folder {
                                 None
                             };
 
-                        access_point.update_secret(id, meta, secret).await?;
+                        // An update that is merged after the secret was
+                        // deleted on this replica is later in time than
+                        // the deletion so it brings the secret back, which
+                        // is what replaying the event log yields
+                        let updated = access_point
+                            .update_secret(id, meta.clone(), secret.clone())
+                            .await?;
+                        if updated.is_none() {
+                            let row = SecretRow::new(*id, meta, secret);
+                            access_point.create_secret(&row).await?;
+                        }
 
                         #[cfg(feature = "search")]
                         if let (
